@@ -221,12 +221,15 @@ class IndexedCache:
         :rtype: None
         """
         # Make a shallow copy only for seen_set tracking to avoid mutating caller's dict
-        if not index or not assignment:
+        if not index:
             self.flat_cache.add(output)
             return
 
-        seen_assignment = dict(assignment)
-        self.seen_set.add(seen_assignment)
+        if assignment:
+            seen_assignment = dict(assignment)
+            self.seen_set.add(seen_assignment)
+        # an output under the empty assignment is stored under wildcards only, it matches every lookup, but it
+        # does not by itself mean that everything has been seen (see mark_complete).
 
         cache = self.cache
         keys = self.keys
